@@ -3,12 +3,21 @@
 #define CONTRACTS_COMP_H
 #include "spec/ghost.h"
 
+/* configured chunk-size options: a minimum can only exist below an already set maximum (0 = not set; comp_init then
+ * applies defaults 1 <= 10 MiB), so that comp_init always ends with chunk_min_size <= chunk_max_size -- the writer units
+ * (contracts/writer.h) ASSUME this of their pre-state, comp_ioption's unit proves it is maintained */
+#ifndef OPT_WF
+#define OPT_WF(z) ((z)->chunk_max_size >= 0 && (z)->chunk_min_size >= 0 && ((z)->chunk_max_size == 0 ? (z)->chunk_min_size == 0 : (z)->chunk_min_size <= (z)->chunk_max_size))
+#endif
+#define OPT_WF_OLD(z) (V_OLD((z)->chunk_max_size) >= 0 && V_OLD((z)->chunk_min_size) >= 0 && (V_OLD((z)->chunk_max_size) == 0 ? V_OLD((z)->chunk_min_size) == 0 : V_OLD((z)->chunk_min_size) <= V_OLD((z)->chunk_max_size)))
+
 /* comp_ioption as used by the header parser (option == ZCK_COMP_TYPE) and by the option setters */
 bool comp_ioption(zckCtx *zck, zck_ioption option, ssize_t value)
 V_REQUIRES(__CPROVER_rw_ok(zck, sizeof(*zck)))
 V_ASSIGNS(zck->comp, zck->manual_chunk, zck->chunk_min_size, zck->chunk_max_size, zck->error_state)
 V_ENSURES(!__CPROVER_return_value || option != ZCK_COMP_TYPE || ((value == ZCK_COMP_NONE || value == ZCK_COMP_ZSTD) && zck->comp.type == (uint8_t)value && zck->comp.started == 0 && zck->comp.init != NULL)) /*@C13,C03.comp_ioption.type_set_and_supported*/
 V_ENSURES(!__CPROVER_return_value || V_OLD(zck->error_state) == 0) /*@C03.comp_ioption.needs_clean_ctx*/
+V_ENSURES(!OPT_WF_OLD(zck) || OPT_WF(zck)) /*@C01,C16.comp_ioption.minimum_never_set_above_the_maximum_in_force*/
 ;
 
 /* comp_init in READ mode (temp_fd == 0, no_write == 0): starts the decoder, keeps its type */
